@@ -86,6 +86,9 @@ def run(lines, out, args):
                     continue
                 if c[0] == "G":
                     body[name] = mkfunc(name, psig(c[1:]), True)
+                elif c[0] == "H":
+                    # a method without a named self: `def m(*args[, **kws])` in the class body
+                    body[name] = mkfunc(name, psig(c[1:]), False)
                 elif c[0] == "F":
                     inst_attrs[name] = mkfunc(name, psig(c[1:]), False)
                 elif c == "B":
@@ -126,7 +129,7 @@ def run(lines, out, args):
                 if d == "A":
                     continue
                 attr = getattr(probe, name)
-                if c[0] in "FG":
+                if c[0] in "FGH":
                     target = attr if not cls_mode else getattr(C(), name)
                     s = inspect.signature(target)
                     impl_pos = len([p for p in s.parameters.values() if p.kind in (p.POSITIONAL_ONLY, p.POSITIONAL_OR_KEYWORD)])
